@@ -17,7 +17,7 @@ func newFuncVC(eng *Engine, fn *ssa.Function, con *Contract, universe map[string
 		heapSorts: map[string]string{}, universe: universe, typeTags: map[string]int{}, globals: map[*ssa.Global]*Val{},
 		paramEntry: map[string]*Val{}, loops: map[*ssa.BasicBlock]*loopInfo{}, backEdges: map[edge]bool{},
 		edgeOut: map[edge]*edgeState{}, havocCallee: map[string]bool{}, usedAssumed: map[string]bool{}, usedCon: map[string]bool{},
-		declPos: map[token.Pos]*ssa.Alloc{}}
+		declPos: map[token.Pos][]*ssa.Alloc{}, recSpecs: map[string]*recSpecInfo{}}
 	return f
 }
 
@@ -36,7 +36,7 @@ func (f *FuncVC) generate() {
 				return
 			}
 			if a, ok := ins.(*ssa.Alloc); ok && a.Pos().IsValid() {
-				f.declPos[a.Pos()] = a
+				f.declPos[a.Pos()] = append(f.declPos[a.Pos()], a)
 			}
 		}
 	}
